@@ -707,7 +707,15 @@ def config_roundtrip(case, row, p, e, sr, ir, key_file, cert_bin=None):
         r = pyres(M.get_mbi_class, cfg)
         if r[0] != "ok":
             return ("configuration created from a parsed image does not select a class", r, None)
-        m2 = r[1]()
+        cls2 = r[1]
+        # what `nxpimage mbi export` does before loading: both schema validations
+        from spsdk.utils.schema_validator import check_config
+        r = pyres(lambda: (check_config(cfg, cls2.get_validation_schemas_family()),
+                           check_config(cfg, cls2.get_validation_schemas(cfg["family"]), search_paths=[out, "."])))
+        if r[0] != "ok":
+            return ("configuration created from a parsed image is refused by the configuration schema (`nxpimage mbi export` would refuse it)",
+                    r, {k: v for k, v in cfg.items() if k != "inputImageFile"})
+        m2 = cls2()
         r = pyres(m2.load_from_config, cfg, [out])
         if r[0] != "ok":
             return ("configuration created from a parsed image does not load", r, {k: v for k, v in cfg.items() if k != "inputImageFile"})
